@@ -25,7 +25,11 @@ The invariants are stated exactly as the healthy tree realises them (learnt from
   I5  every non-null value of a body-valued column names a block of the same unit whose parent is that row, and every
       block is named by some column of its parent row (no orphan).  Body-valued columns = the documented list
       + every other numeric column that the data shows to be used that way (at least two values and at least half
-      of its non-null values name a block owned by their row);
+      of its non-null values name a block owned by their row).  For the (operation, attribute) pairs that
+      docs/en/03.frontend/3-2.gir.md documents as bodies, a non-null, non-empty, non-numeric value (flatten_stmt
+      stringifies a list that is not GIR-shaped, e.g. "['a', 'b']") is a violation too: it names no block.  An empty
+      body legitimately reads back as null (flatten stores None for an empty list) or as an empty block (method
+      bodies);
   I6  rows with parent 0 are `*_decl` or import/export/type-alias rows (add_main_func's own classification);
       at most one `%unit_init` per unit; every other row has among its ancestors a `method_decl` (the class
       initialisers `%class_init/%class_sinit/%static_init_class%` are method_decl rows) or a block named by the
